@@ -241,3 +241,26 @@ enum ChannelEndState {
     Claimed { owner: ConnectionId, capacity: u32 },
     Closed,
 }
+
+#[cfg(feature = "verif-hooks")]
+impl Channel {
+    pub(crate) fn verif_snapshot(&self) -> crate::verif::ChannelSnapshot {
+        fn end(state: &ChannelEndState) -> crate::verif::ChannelEndSnapshot {
+            match state {
+                ChannelEndState::Unclaimed => crate::verif::ChannelEndSnapshot::Unclaimed,
+                ChannelEndState::Claimed { owner, capacity } => {
+                    crate::verif::ChannelEndSnapshot::Claimed {
+                        owner: owner.verif_raw(),
+                        capacity: *capacity,
+                    }
+                }
+                ChannelEndState::Closed => crate::verif::ChannelEndSnapshot::Closed,
+            }
+        }
+
+        crate::verif::ChannelSnapshot {
+            sender: end(&self.sender),
+            receiver: end(&self.receiver),
+        }
+    }
+}
